@@ -731,3 +731,114 @@ def attr_values_kept_verbatim(ctx, rule, which):
                     if not ok:
                         bad = "state %s appends %s to the attribute value instead of the character read" % (st, x)
     ctx.ob(rule, "attribute-value-characters-kept-verbatim/%s" % which, bad is None and n >= 6, bad or "%d appends, all of the character / run that was read" % n, "%s tokenizer attribute value states" % which)
+
+
+def attr_buffers_emptied(ctx, rule, which):
+    """finish_attribute: whenever an attribute name was collected, both the name buffer and the value buffer are empty when the
+    function returns - whether the attribute is kept (buffers moved into it) or dropped as a duplicate.  A value left behind is
+    prepended to the next attribute's value, even in a later tag"""
+    T = ctx.tables(which)
+    rows = T["helpers"].get("finish_attribute")
+    if not rows:
+        raise AnchorMissing("finish_attribute not tabulated (%s)" % which)
+    bad = None
+    n = 0
+    for pc in rows:
+        g = pc["guards"]
+        if any(v and re.search(r"current_attr_name\.is_empty\(\)|current_attr_name\.len\(\) matches 0", k) for k, v in g.items()):
+            continue
+        if "panic!" in [a for a, _ in pc["actions"]]:
+            continue
+        n += 1
+        txt = " ".join("%s(%s)" % (a, ",".join(str(x) for x in args)) for a, args in pc["actions"]) + " " + str(pc["ret"])
+        for buf in ("current_attr_name", "current_attr_value"):
+            if not re.search(r"self\.%s\.clear\(|take\(self\.%s\)|take self\.%s|replace self\.%s|set self\.%s|assign self\.%s|self\.%s\.take\(" % ((buf,) * 7), txt):
+                kept = not any(v and ".any(" in k for k, v in g.items())
+                bad = "on the path where the attribute is %s, %s is not emptied: its content is glued to the front of the next attribute's %s" % (
+                    "kept" if kept else "dropped as a duplicate", buf, "name" if buf.endswith("name") else "value")
+    ctx.ob(rule, "finish_attribute-empties-both-buffers/%s" % which, bad is None and n >= 2, bad or "%d paths, name and value buffers emptied on each" % n, "%s tokenizer finish_attribute" % which)
+
+
+RUN_ACTIONS = {"emit_chars", "self.current_attr_value.push_tendril", "self.current_comment.push_tendril", "self.current_pi_data.push_tendril", "self.temp_buf.push_tendril"}
+
+
+def runs_only_concatenate(ctx, rule, which):
+    """where a state takes a whole *run* of characters from the queue (pop_except_from -> NotFromSet), the length of the run depends
+    on where the input was cut into chunks.  So the only thing a state may do with a run is append it to the buffer / character
+    token it is collecting and stay in the same state: no error report, no flag, no state change, nothing per run"""
+    T = ctx.tables(which)
+    bad = None
+    n = 0
+    for st, rows in T["step"].items():
+        for pc in rows or []:
+            if not any(len(a) >= 2 and a[1] == "RUN" for a in (pc.get("acq") or [])):
+                continue
+            n += 1
+            acts = [(a, tuple(str(x) for x in args)) for a, args in pc["actions"]]
+            ok = len(acts) == 1 and acts[0][0] in RUN_ACTIONS and acts[0][1] == ("run",) and str(pc["ret"]) == "Continue" and pc.get("next") in (st, None)
+            if not ok:
+                bad = "state %s does %s -> %s/%s with a run of characters; how long a run is depends on the chunking, so anything but appending it shows the chunk boundaries (e.g. one parse error per run)" % (
+                    st, [a for a, _ in acts][:4], pc["ret"], pc.get("next"))
+            elif any(not re.match(r"^\(?self\.(opts|profile)", k) for k in pc["guards"]):
+                extra = [k for k in pc["guards"] if not re.match(r"^\(?self\.(opts|profile)", k)]
+                bad = "state %s examines a run of characters (%s) before appending it: the answer depends on where the run was cut" % (st, extra[0][:80])
+    floor = 10 if which == "html" else 3
+    ctx.ob(rule, "runs-are-only-appended/%s" % which, bad is None and n >= floor, bad or "%d run arms: append the run, stay in the state" % n, "%s tokenizer step" % which)
+
+
+CHARREF_STATES = {"Begin", "Octothorpe", "Numeric", "NumericSemicolon", "Named", "BogusName"}
+
+
+def charref_eof_resolution(ctx, rule, which):
+    """end of input inside a character reference: every state resolves what was collected the way the standard's 'EOF' /
+    'anything else' entries do - a name still being matched is looked up (longest match so far, as if a non-name character
+    followed); a name known not to match is handed back as text; digits are converted; '&#' / '&#x' without digits is handed back"""
+    T = ctx.tables(which)
+    rows = (T.get("charref") or {}).get("end_of_file")
+    if not rows:
+        raise AnchorMissing("CharRefTokenizer::end_of_file not tabulated (%s)" % which)
+    bad = None
+    seen = set()
+    for pc in rows:
+        S = set(CHARREF_STATES)
+        for k, v in pc["guards"].items():
+            m = re.match(r"self\.state matches (.*)$", re.sub(r"#\d+$", "", k))
+            if not m:
+                continue
+            alts = {a.split("(")[0] for a in m.group(1).split("|")}
+            S = S & alts if v else S - alts
+        if not S or S == CHARREF_STATES:
+            continue  # infeasible, or a path that does not look at the state (a result is already there)
+        names = [a for a, _ in pc["actions"]]
+        args = {a: tuple(str(x) for x in ar) for a, ar in pc["actions"]}
+        digits = [v for k, v in pc["guards"].items() if re.sub(r"\.get\(\)$", "", k) == "self.seen_digit"]
+        resolve = [a for a in names if a in ("finish_named", "finish_numeric", "unconsume_name", "unconsume_numeric")]
+        if "Named" in S:
+            if S == {"Named"}:
+                seen.add("Named")
+            if resolve != ["finish_named"] or "None" not in args["finish_named"]:
+                bad = "state Named at end of input: %s - the name matched so far must be looked up as if a non-name character followed (finish_named with no next character); handing it back as text leaves '&amp' / '&lt;' at the very end of the input undecoded" % (resolve or names[:2])
+        elif S == {"BogusName"}:
+            seen.add("BogusName")
+            if resolve != ["unconsume_name"]:
+                bad = "state BogusName at end of input: %s instead of handing the name back" % (resolve or names[:2])
+        elif S <= {"Numeric", "NumericSemicolon"}:
+            if S == {"Numeric"} and digits and digits[-1] is False:
+                seen.add("NoDigits")
+                if resolve != ["unconsume_numeric"]:
+                    bad = "'&#' without digits at end of input: %s instead of handing the characters back" % (resolve or names[:2])
+            else:
+                seen.add("Numeric")
+                if resolve != ["finish_numeric"]:
+                    bad = "digits at end of input: %s instead of converting them" % (resolve or names[:2])
+        elif S == {"Octothorpe"}:
+            seen.add("Octothorpe")
+            txt = " ".join("%s(%s)" % (a, ",".join(str(x) for x in ar)) for a, ar in pc["actions"])
+            if resolve or '"#"' not in txt:
+                bad = "'&#' at end of input: %s instead of handing '#' back" % (resolve or names[:2])
+        elif S == {"Begin"}:
+            seen.add("Begin")
+            if resolve:
+                bad = "nothing was read after '&' but %s is performed" % resolve
+    want = {"Named", "BogusName", "Numeric", "NoDigits", "Octothorpe", "Begin"}
+    ctx.ob(rule, "charref-end-of-input/%s" % which, bad is None and want <= seen, bad or "Named -> looked up; BogusName -> handed back; digits -> converted; no digits / '#' -> handed back", "%s char_ref end_of_file" % which)
